@@ -36,15 +36,13 @@ Fixpoint steps_until_failure (s : store) (ops : list op) : store * out :=
   end.
 
 Definition spec_add (s : store) (a : addq) : store * out :=
-  match add_builders a (sem s [] (add_sub a)) with
+  match add_builders s a (sem s [] (add_sub a)) with
   | Some bs => steps_until_failure s (map Annotate bs)
   | None => (s, OErr)
   end.
 
-(* the annotations a DELETE selects *)
-Definition delete_handles (s : store) (x : nat) (sub : query) : list nat :=
-  flat_map (fun row => match row_item (names_of sub) row x with Some (IAnn a) => [a] | _ => [] end)
-           (sem s [] sub).
-
-Definition spec_delete (s : store) (x : nat) (sub : query) : store :=
-  fold_left (fun s a => fst (step s (RmAnn (ByHandle a)))) (delete_handles s x sub) s.
+Definition spec_delete (s : store) (x : nat) (sub : query) : store * out :=
+  match delete_handles x sub (sem s [] sub) with
+  | Some hs => (fold_left (fun s a => fst (step s (RmAnn (ByHandle a)))) hs s, OOk 0)
+  | None => (s, OErr)
+  end.
